@@ -48,28 +48,6 @@ Lemma consts_ok :
 Proof. vm_compute. repeat split. Qed.
 Print Assumptions consts_ok.
 
-(* The same for ALL literals (array sizes, indices, carry-ins, shift counts)
-   of the straight-line routines whose literal list is short. *)
-Definition condsub_allL : list Z :=
-  [3; q3; 3; q3; 2; q2; 2; q2; 1; q1; 1; q1; 0; q0;
-   0; 0; q0; 0; 1; 1; q1; 2; 2; q2; 3; 3; q3].
-Definition addq_allL : list Z := [0; 0; q0; 0; 1; 1; q1; 2; 2; q2; 3; 3; q3].
-Definition shr1_allL : list Z := [0; 0; 1; 1; 63; 1; 1; 1; 2; 63; 2; 2; 1; 3; 63; 3; 1].
-
-Lemma lits_ok :
-  FfConsts.lits_addGeneric = [0; 0; 0; 0; 1; 1; 1; 2; 2; 2; 3; 3; 3] ++ condsub_allL
-  /\ FfConsts.lits_doubleGeneric = [0; 0; 0; 0; 1; 1; 1; 2; 2; 2; 3; 3; 3] ++ condsub_allL
-  /\ FfConsts.lits_subGeneric = [0; 0; 0; 0; 1; 1; 1; 2; 2; 2; 3; 3; 3; 0] ++ addq_allL
-  /\ FfConsts.lits_negGeneric = [0; q0; 0; 0; 1; q1; 1; 2; q2; 2; 3; q3; 3]
-  /\ FfConsts.lits_reduceGeneric = condsub_allL
-  /\ FfConsts.lits_Element_Halve = [0; 1; 1] ++ addq_allL ++ shr1_allL
-  /\ FfConsts.lits_mulByConstant = [0; 1; 2; 3; 5]
-  /\ FfConsts.lits_Element_Exp = [0; 2; 0; 1]
-  /\ FfConsts.lits_madd0 = [0; 0]
-  /\ FfConsts.lits_madd1 = [0; 0]
-  /\ FfConsts.lits_madd2 = [0; 0; 0; 0]
-  /\ FfConsts.lits_madd3 = [0; 0; 0].
-Proof. vm_compute. repeat split. Qed.
 
 (* ------------------------------------------------------------------ *)
 (** * Facts about the constants used by the proofs; afterwards the limbs of q
@@ -242,33 +220,3 @@ Proof.
   pose proof W_pos. lia.
 Qed.
 
-(* ------------------------------------------------------------------ *)
-(** * All literals of the long routines (indices included), by blocks *)
-
-Definition round0_allL : list Z :=
-  [0; 1; 0; 0; 0; qInvNeg; 2; q0; 0; 1; 0; 1; 1; 2; 0; q1; 2; 0; 1; 0; 2; 1;
-   2; 1; q2; 2; 0; 1; 0; 3; 1; 3; 2; q3; 0; 2; 1].
-Definition roundN_allL (i : Z) : list Z :=
-  [i; 1; 0; 0; 0; 0; qInvNeg; 2; q0; 0; 1; 0; 1; 1; 1; 2; 0; q1; 2; 0;
-   1; 0; 2; 1; 2; 2; 1; q2; 2; 0; 1; 0; 3; 1; 3; 3; 2; q3; 0; 2; 1].
-Definition fm_block_allL : list Z :=
-  [0; qInvNeg; q0; 0; 0; q1; 1; 1; q2; 2; 2; q3; 3; 3].
-Definition sub4_allL : list Z := [0; 0; 0; 0; 1; 1; 1; 2; 2; 2; 3; 3; 3].
-Definition inner_loop_allL : list Z :=
-  [0; 1; 0] ++ shr1_allL ++ [0; 1; 1] ++ addq_allL ++ shr1_allL.
-Definition inv_branch_allL : list Z := sub4_allL ++ sub4_allL ++ [1] ++ addq_allL.
-
-Lemma lits_ok_long :
-  FfConsts.lits_mulGeneric =
-    [4; 3] ++ round0_allL ++ roundN_allL 1 ++ roundN_allL 2 ++ roundN_allL 3 ++ condsub_allL
-  /\ FfConsts.lits_fromMontGeneric =
-    fm_block_allL ++ fm_block_allL ++ fm_block_allL ++ fm_block_allL ++ condsub_allL
-  /\ FfConsts.lits_Element_SetOne =
-    (let '(a, b, c, d) := one in [0; a; 1; b; 2; c; 3; d])
-  /\ FfConsts.lits_Element_Inverse =
-    qL ++ (let '(a, b, c, d) := rSquare_el in [a; b; c; d])
-       ++ inner_loop_allL ++ inner_loop_allL
-       ++ [3; 3; 3; 3; 2; 2; 2; 2; 1; 1; 1; 1; 0; 0]
-       ++ inv_branch_allL ++ inv_branch_allL
-       ++ [0; 1; 3; 2; 1; 0] ++ [0; 1; 3; 2; 1; 0].
-Proof. vm_compute. repeat split. Qed.
